@@ -29,6 +29,9 @@ class HDKey(EmbitKey):
         self.key = key
         if len(key.serialize()) != 32 and len(key.serialize()) != 33:
             raise HDError("Invalid key. Should be private or compressed public")
+        if key.is_private and not getattr(key, "compressed", True):
+            # BIP32 uses the compressed public key in derivations and fingerprints
+            raise HDError("Invalid key. Private key should be flagged as compressed")
         if version is not None:
             self.version = version
         else:
